@@ -805,12 +805,13 @@ def make_clock_class(state):
         @classmethod
         def now(cls, tz=None):
             state.reads += 1
-            state.local_reads += 1
             if state.hook:
                 state.hook(state.reads)
             if tz is not None:
-                t = base.fromtimestamp(state.now, tz)
-                return t
+                # an aware "now" in a given zone is a correct way to read UTC; not a local-time read
+                t = base(1970, 1, 1, tzinfo=_dt.timezone.utc) + _dt.timedelta(seconds=state.now)
+                return t.astimezone(tz)
+            state.local_reads += 1
             t = base(1970, 1, 1) + _dt.timedelta(seconds=state.now + 3600 * state.utc_offset_h)
             return cls(t.year, t.month, t.day, t.hour, t.minute, t.second, t.microsecond)
 
